@@ -340,7 +340,11 @@ func c11ParallelStart(seed int64, scratch string) (classes, whats []string) {
 // c11NewSorter creates the sorter of a history inside scratch and finds the directory it made for itself (the one
 // sub-directory of scratch that is not listed in known).
 func c11NewSorter(h c11Hist, scratch string, known []string) (*morass.Morass, string, error) {
-	m, err := morass.New(c11ElemOf(h).proto, "run", scratch, h.Chunk, h.Concurrent)
+	prefix := "run"
+	if h.Prefix != "" {
+		prefix = h.Prefix
+	}
+	m, err := morass.New(c11ElemOf(h).proto, prefix, scratch, h.Chunk, h.Concurrent)
 	if err != nil {
 		return nil, "", err
 	}
